@@ -201,6 +201,28 @@ def run_c07(ctx, replay=None):
     return finish(ctx, "C07")
 
 
+def run_rpc_lists(ctx):
+    """C13 through GroupMetadataList / GroupMessageList of an in-process service"""
+    ov = ctx.overlay({PKG: ["vf_rpclist_verif_test.go"]})
+    sizes = [(0, 0), (2, 3)] if ctx.tier == "quick" else [(0, 0), (1, 1), (3, 4), (5, 6)]
+    scripts = [{"id": i, "cfg": {"nmeta": a, "nmsg": b}, "steps": []} for i, (a, b) in enumerate(sizes)]
+    events, _ = vf.run_driver(ctx, PKG, "^TestVerifRPCList$", ov, scripts, "rpclist", timeout=2400)
+    acc, rejects = vf.validate_blocks(ctx, MON, events, "rpclist", consts={"Prop": '"C13"'})
+    n = sum(1 for e in events if e.get("ev") in ("rpclist", "rpcparams"))
+    ctx.evaluations += n
+    ctx.distinct_nontrivial += sum(1 for e in events if e.get("ev") == "rpclist" and e.get("ok") and len(e.get("out", [])) >= 2)
+    ctx.extra["rpc_listings"] = n
+    for rj in rejects:
+        line = rj["info"].get("line", {})
+        ctx.violation("RPC listing breaks C13: %s" % json.dumps(line, sort_keys=True)[:400],
+                      {"script": scripts[rj["id"]], "rejected_line": line, "family": "rpclist"})
+
+
 def run_c13(ctx, replay=None):
+    if replay and json.load(open(replay)).get("family") == "rpclist":
+        run_rpc_lists(ctx)
+        return finish(ctx, "C13")
     run_prop(ctx, "C13", replay)
+    if not replay:
+        run_rpc_lists(ctx)
     return finish(ctx, "C13")
